@@ -1,5 +1,6 @@
 """C06 fragments_needed: propagation (R06a), index spaces (R05e), both lists matter (R06c), terminator/return structure (R06d)."""
 import re
+INT_RE = re.compile(r'^-?\d+$')
 from .. import chains, callgraph, xorrules, taint
 from ..vflow import Canon, strip_int_casts, strip_ptr_casts, derived_pointers
 from ..guards import Facts, dominating_edges, edge_condition
@@ -345,6 +346,41 @@ def run(ctx):
                        msg=f'{tname}: for the missing list [3, 5] where {label}, element {chosen} is planned and the list handed to {follow[1:]} is '
                            f'[{L.get((0,))}, {L.get((1,))}]: it must hold the other element followed by -1')
     r.require_min(2)
+
+    # ---------------- R06i the element asked about is itself on the missing-data list handed to the equation search
+    r = ctx.rule('R06i', 'XOR planner: every search for a connected parity counts the element it is asked about among the missing data',
+                 'index_of_connected_parity accepts equations with at most one missing member: if the requested element is not counted, an equation that '
+                 'also holds an excluded data element is accepted and the answer names the excluded fragment')
+    hm = P.mod('src/builtin/xor_codes/xor_hd_code.c')
+    # the scalar given to index_of_connected_parity is loaded from the list given as missing_data, or was stored into that list before the call
+    for fn in hm.functions.values():
+        for c in [c for c in fn.insts() if c.op == 'call' and c.callee == '@index_of_connected_parity']:
+            x = strip_int_casts(fn, c.ops[1])
+            md = strip_ptr_casts(fn, c.ops[3])
+            A, _x = derived_pointers(fn, [md])
+            xd = fn.defs.get(x)
+            from_list = False
+            def loaded_from(v, depth=0):
+                d = fn.defs.get(strip_int_casts(fn, v))
+                if d is None or depth > 4:
+                    return False
+                if d.op == 'load':
+                    return d.ops[0] in A or strip_ptr_casts(fn, d.ops[0]) == md
+                if d.op in ('phi', 'select'):
+                    ops = [q for q, _ in d.incoming] if d.op == 'phi' else d.ops[1:]
+                    return all(loaded_from(o, depth + 1) for o in ops if not (INT_RE.match(o) and int(o) < 0))
+                return False
+            from_list = loaded_from(x)
+            stored = any(st.op == 'store' and st.ops[1] in A and strip_int_casts(fn, st.ops[0]) == x and
+                         (st.bb is c.bb and st.idx < c.idx or c.bb in __import__('lecverif.cfg', fromlist=['x']).reachable_from(st.bb)) for st in fn.insts())
+            inst = f'{fn.name}: index_of_connected_parity at line {c.line}'
+            if from_list or stored:
+                r.ok(inst + ': the element is ' + ('taken from' if from_list else 'added to') + ' the missing-data list', func=fn.name, loc=c.loc)
+            else:
+                r.fail(inst, func=fn.name, sig='element asked about is not on the missing-data list', loc=c.loc,
+                       msg=f'{fn.name} asks for a parity connected to {Canon(P, fn).val(x)[:40]} but that element is not on the missing-data list it passes: equations that '
+                           'also hold an excluded data element (really two unavailable members) are accepted, and the answer names the excluded fragment')
+    r.require_min(5)
 
     r = ctx.rule('R06f', 'bitmaps built from index lists are consumed only through single-bit tests',
                  'convert_list_to_bitmap sign-extends at index 31: a population count or whole-word comparison miscounts stripes that use fragment 31')
